@@ -217,6 +217,17 @@ impl Store {
     }
 }
 
+// Verification hook: every stream record with its slab key.
+#[cfg(feature = "verif-hooks")]
+impl Store {
+    pub(super) fn verif_dump(&self) -> Vec<String> {
+        self.slab
+            .iter()
+            .map(|(key, stream)| format!("#{} {:?}", key, stream))
+            .collect()
+    }
+}
+
 // While running h2 unit/integration tests, enable this debug assertion.
 //
 // In practice, we don't need to ensure this. But the integration tests
